@@ -463,6 +463,24 @@ Proof.
   split; [vm_compute; reflexivity|]. vm_compute. discriminate.
 Qed.
 
+(** altered EID normalised back: source //a/ -> //a? (one bit, octet 26, inside
+    the CRC-16 primary block) *)
+Definition eid_witness_octets : bytes :=
+  unhex 91 0x9f89071a00064000018201682f2f6d652f6170708201642f2f612f8201672f2f612f727074821903e8011a0036ee8042b3f38601010001581e0102030102030102030102030102030102030102030102030102030102034261f3ff.
+
+Theorem detect_refuted_eid :
+  strict_verdict eid_witness_octets = (2, true)
+  /\ lax_verdict (xor_at 26 [16] eid_witness_octets) = 2
+  /\ (exists b, decode_bundle (xor_at 26 [16] eid_witness_octets) = Some b
+                /\ src (prim b) = EidDtn [47; 47; 97; 63]
+                /\ crc_ok_primary (prim b) = false
+                /\ crc_ok_primary (impl_norm_primary (prim b)) = true
+                /\ encode_primary (impl_norm_primary (prim b)) = firstn 49 (skipn 1 eid_witness_octets)).
+Proof.
+  split; [vm_compute; reflexivity|]. split; [vm_compute; reflexivity|].
+  eexists. split; [vm_compute; reflexivity|]. repeat (split; [vm_compute; reflexivity|]). vm_compute; reflexivity.
+Qed.
+
 (** On strictly decoded octets the lax reading agrees with the codec model. *)
 Lemma lax_of_strict_block (b : cblock) :
   (bcrc_type b = 0 /\ bcrc b = None) \/ bcrc_type b = 1 \/ bcrc_type b = 2 ->
